@@ -1,5 +1,5 @@
 """Per-property wording for MANIFEST.json (kept next to the registry)."""
-HOOK_COMMITS = ["bfa4000 (H0 friend probe)", "7764012 (H1 ParallelSieve piece hook / minimum piece length override)", "9768352 (H4 nthPrimeApprox override)"]
+HOOK_COMMITS = ["bfa4000 (H0 friend probe)", "7764012 (H1 ParallelSieve piece hook / minimum piece length override)", "9768352 (H4 nthPrimeApprox override)", "e826426 (H1b thread threshold override)"]
 NOTES = ("Technique family: machine-checked proof in Lean 4 (see DESIGN.md). Every check = build /repo with "
          "hooks+asserts+sanitizers, regenerate lean/PsModel/Generated from /repo, lake build + axiom audit + "
          "statement lock of the property theorems, then correspondence streams (harness vs compiled Lean model).")
